@@ -69,7 +69,8 @@ def from_yaml_all(f: FileOrPath, ty: t.Type[T], *,
     with open_file(f) as f:
         obj = t.cast(t.List[t.Any], list(yaml.load_all(f, Loader)))  # type: ignore
 
-    return from_data(obj, t.List[ty], custom=custom)
+    # (`list[ty]`, not `t.List[ty]`: typing memoises its aliases by ==, under which Union[int, float] is Union[float, int])
+    return from_data(obj, list[ty], custom=custom)  # type: ignore
 
 
 def write_json(obj: Convertible, f: FileOrPath, *,
